@@ -188,6 +188,7 @@ def transform_tasks(tier):
            Task('pipeline.minify', 'contracts.pipeline:task_minify')]
     ts.append(generic_standin('transform sweep', 'transform_sweep.py', [], 'a pool of statement shapes x every single option on/off: only the documented rewrite of the '
                               'enabled option appears, compared on the tree'))
+    ts.append(Task('pipeline.defaults', 'contracts.pipeline:task_defaults'))
     return ts
 
 
@@ -214,7 +215,7 @@ def sweep(only, tier, label, extra=()):
 def renamer_tasks(tier):
     ts = [Task('scopes.add_parent', 'contracts.scopes:task_add_parent'), Task('scopes.arguments', 'contracts.scopes:task_arguments'),
           Task('scopes.namedexpr', 'contracts.scopes:task_namedexpr')]
-    for t in ('arg_rename_in_place', 'namebinding_init', 'binder_get_binding', 'resolve_get_binding', 'resolve_names', 'namebinding_rename', 'name_assigner', 'reservation_scope', 'allow_rename',
+    for t in ('arg_rename_in_place', 'namebinding_init', 'binder_get_binding', 'name_binder_visitors', 'resolve_get_binding', 'resolve_names', 'namebinding_rename', 'name_assigner', 'reservation_scope', 'allow_rename',
               'taint_alias'):
         ts.append(Task('renamer.' + t, 'contracts.renamer:task_' + t))
     for t in ('hoist_visitors', 'hoisted_value', 'insert', 'placement', 'cost_model'):
